@@ -251,3 +251,57 @@ Section P.
       repeat split; [assumption | now rewrite H2, Ha | now rewrite H3].
   Qed.
 End P.
+
+(* ---------------- renaming ---------------- *)
+Local Open Scope string_scope.
+Lemma rename_is_spec : forall mask ps new,
+  List.length mask = List.length ps -> List.length new = n_free mask ->
+  rename mask ps new = rename_spec mask ps new.
+Proof.
+  unfold rename, set_bases.
+  induction mask as [|b m IH]; intros [|p r] new Lm Ln; cbn in Lm; try discriminate; [reflexivity|].
+  destruct b; cbn [map merge rename_spec].
+  - cbn [combine map fst snd]. destruct p as [bn dn]. cbn. f_equal. apply IH; [lia | exact Ln].
+  - unfold n_free in Ln. cbn [filter negb List.length] in Ln. destruct new as [|n ns]; [discriminate|].
+    cbn [combine map fst snd]. f_equal. apply IH; [lia | cbn in Ln; unfold n_free; lia].
+Qed.
+
+(* the published name of a fixed parameter is untouched, so it can still be released by that name *)
+Theorem fixed_names_kept : forall mask ps new i p,
+  List.length mask = List.length ps -> List.length new = n_free mask ->
+  nth_error mask i = Some true -> nth_error ps i = Some p ->
+  nth_error (rename mask ps new) i = Some p.
+Proof.
+  intros mask ps new i p Lm Ln Hm Hp. rewrite rename_is_spec by assumption.
+  revert ps new i p Lm Ln Hm Hp.
+  induction mask as [|b m IH]; intros [|q r] new i p Lm Ln Hm Hp; cbn in Lm; try discriminate;
+    [destruct i; discriminate|].
+  destruct i as [|i]; cbn in Hm, Hp.
+  - injection Hm as ->. injection Hp as ->. reflexivity.
+  - destruct b; cbn [rename_spec].
+    + cbn [nth_error]. apply IH; [lia | exact Ln | exact Hm | exact Hp].
+    + unfold n_free in Ln. cbn [filter negb List.length] in Ln. destruct new as [|n ns]; [discriminate|].
+      cbn [nth_error]. apply IH; [lia | cbn in Ln; unfold n_free; lia | exact Hm | exact Hp].
+Qed.
+
+Lemma rename_length : forall mask ps new,
+  List.length mask = List.length ps -> List.length new = n_free mask ->
+  List.length (rename mask ps new) = List.length ps.
+Proof.
+  intros mask ps new Lm Ln. rewrite rename_is_spec by assumption. revert ps new Lm Ln.
+  induction mask as [|b m IH]; intros [|q r] new Lm Ln; cbn in Lm; try discriminate; [reflexivity|].
+  destruct b; cbn [rename_spec List.length].
+  - f_equal. apply IH; [lia | exact Ln].
+  - unfold n_free in Ln. cbn [filter negb List.length] in Ln. destruct new as [|n ns]; [discriminate|].
+    cbn [List.length]. f_equal. apply IH; [lia | cbn in Ln; unfold n_free; lia].
+Qed.
+
+(* reading the published names instead doubles the dimension name of every fixed parameter *)
+Theorem rename_old_refuted : exists mask ps new i p,
+  List.length mask = List.length ps /\ List.length new = n_free mask /\
+  nth_error mask i = Some true /\ nth_error ps i = Some p /\
+  nth_error (rename_old mask ps new) i <> Some p.
+Proof.
+  exists [true; false], [("Mean", "Dim. 1"); ("Std.", "Dim. 1")], ["a"], 0, ("Mean", "Dim. 1").
+  repeat split; cbn; discriminate.
+Qed.
